@@ -49,6 +49,7 @@ type invokeState struct {
 type Monitor struct {
 	w *World
 	Model
+	anyFailure bool // some user function returned an error or panicked earlier in this history
 	role      map[int]interface{} // fn id -> *Reg | *Dec
 	okExecs   map[int]int
 	viol      []Violation
@@ -78,6 +79,15 @@ func newMonitor(w *World) *Monitor {
 
 var reentrantRules = map[string]bool{"C02.nested": true, "C02.twice": true, "C07.tainted": true, "C14.panic": true,
 	"C03.outside-invoke": true, "C17.dry-executed": true}
+
+// afterFailure: ",<prop>" once some user function has failed earlier in this history (rules that then
+// also speak for the retry clauses of that property), "" otherwise.
+func (m *Monitor) afterFailure(prop string) string {
+	if m.anyFailure {
+		return "," + prop
+	}
+	return ""
+}
 
 func (m *Monitor) violate(props string, rule string, f string, a ...interface{}) {
 	if m.seen[rule] {
@@ -204,7 +214,23 @@ func (m *Monitor) onEnter(rec *ExecRec) {
 		}
 	} else {
 		if m.okExecs[f.ID] > 0 {
-			m.violate("C02", "C02.twice", "f%d executed again after a successful execution", f.ID)
+			props := "C02"
+			if m.anyFailure {
+				// "results of other functions that did succeed remain cached" after a failure
+				props += ",C07"
+			}
+			switch x := m.role[f.ID].(type) {
+			case *Dec:
+				props += ",C12" // a decorator runs at most once
+			case *Reg:
+				for k := range x.prod {
+					if k.Group != "" {
+						props += ",C10" // each feeder executed exactly once however often the group is requested
+						break
+					}
+				}
+			}
+			m.violate(props, "C02.twice", "f%d executed again after a successful execution", f.ID)
 		}
 		if m.inv != nil && !m.inv.may[f.ID] {
 			m.violate("C03,C11", "C03.not-in-closure", "f%d ran but is not in the dependency closure of the invoked function f%d (scope s%d)", f.ID, m.inv.f.ID, m.inv.s)
@@ -248,7 +274,7 @@ func (m *Monitor) checkArg(f *Fn, n node, kind string, i int, p Param, got []*To
 					m.stats["arg.excluded.dec-cycle"]++
 					return
 				}
-				m.violate("C12", "C12.groupdec-not-done", "f%d param %v: enclosing group decorator f%d has not run", f.ID, p, d.F.ID)
+				m.violate("C12,C03"+m.afterFailure("C07"), "C12.groupdec-not-done", "f%d param %v: enclosing group decorator f%d has not run", f.ID, p, d.F.ID)
 				return
 			}
 			var want []*Tok
@@ -257,7 +283,7 @@ func (m *Monitor) checkArg(f *Fn, n node, kind string, i int, p Param, got []*To
 			}
 			m.situ[sit+"group-decorated/d"+fmt.Sprint(m.dist(S, d.S))]++
 			if !sameMultiset(got, want) {
-				m.violate("C12", "C12.group-decorated-content", "f%d param %v: got %v want output of decorator f%d %v", f.ID, p, got, d.F.ID, want)
+				m.violate("C12"+m.afterFailure("C07"), "C12.group-decorated-content", "f%d param %v: got %v want output of decorator f%d %v", f.ID, p, got, d.F.ID, want)
 			}
 			return
 		}
@@ -274,7 +300,7 @@ func (m *Monitor) checkArg(f *Fn, n node, kind string, i int, p Param, got []*To
 			}
 			m.situ[fmt.Sprintf("%sgroup-hard/feeders%d", sit, min(len(fs), 4))]++
 			if !sameMultiset(got, want) {
-				m.violate("C10,C01", "C10.group-content", "f%d param %v: got %v want %v", f.ID, p, got, want)
+				m.violate("C10,C01,C08,C09", "C10.group-content", "f%d param %v: got %v want %v", f.ID, p, got, want)
 			}
 			return
 		}
@@ -320,7 +346,7 @@ func (m *Monitor) checkArg(f *Fn, n node, kind string, i int, p Param, got []*To
 				m.stats["arg.excluded.dec-cycle"]++
 				return
 			}
-			m.violate("C12,C01,C07", "C12.dec-not-done", "f%d param %v: got %v although enclosing decorator f%d has not run", f.ID, p, g, d.F.ID)
+			m.violate("C12,C01,C07,C03", "C12.dec-not-done", "f%d param %v: got %v although enclosing decorator f%d has not run", f.ID, p, g, d.F.ID)
 			return
 		}
 		want = d.toks[d.prod[p.K][0]][0]
@@ -331,7 +357,7 @@ func (m *Monitor) checkArg(f *Fn, n node, kind string, i int, p Param, got []*To
 			m.stats["arg.decorated.nested"]++
 		}
 		if g != want {
-			m.violate("C12,C01", "C12.wrong-decorated-value", "f%d param %v: got %v want %v (output of decorator f%d)", f.ID, p, g, want, d.F.ID)
+			m.violate("C12,C01"+m.afterFailure("C07"), "C12.wrong-decorated-value", "f%d param %v: got %v want %v (output of decorator f%d)", f.ID, p, g, want, d.F.ID)
 		}
 		return
 	}
@@ -350,7 +376,7 @@ func (m *Monitor) checkArg(f *Fn, n node, kind string, i int, p Param, got []*To
 		// zero for an optional dependency that has a provider: legitimate only when the
 		// provider was not built before this Invoke and is unavailable (fault-free) as of its start
 		if m.inv != nil && m.inv.doneAtStart[r.F.ID] {
-			m.violate("C01,C04,C02", "C01.optional-zero-but-cached", "f%d optional param %v is zero although provider f%d had already run before this Invoke", f.ID, p, r.F.ID)
+			m.violate("C01,C04,C02,C08", "C01.optional-zero-but-cached", "f%d optional param %v is zero although provider f%d had already run before this Invoke", f.ID, p, r.F.ID)
 			return
 		}
 		onStackCandidates := 0
@@ -371,7 +397,7 @@ func (m *Monitor) checkArg(f *Fn, n node, kind string, i int, p Param, got []*To
 		m.snap = nil
 		m.resetMemo()
 		if a == avYes {
-			m.violate("C04,C01", "C04.optional-zero-but-avail", "f%d optional param %v is zero although provider f%d is available", f.ID, p, r.F.ID)
+			m.violate("C04,C01,C08", "C04.optional-zero-but-avail", "f%d optional param %v is zero although provider f%d is available", f.ID, p, r.F.ID)
 		}
 		m.stats["arg.optzero.unavail"]++
 		m.situ[sit+"single-optional-zero-unavail"]++
@@ -491,11 +517,13 @@ func (m *Monitor) onExit(rec *ExecRec) {
 		}
 	case "err":
 		m.stats["exit.err"]++
+		m.anyFailure = true
 		if m.inv != nil {
 			m.inv.failed = append(m.inv.failed, rec)
 		}
 	case "panic":
 		m.stats["exit.panic"]++
+		m.anyFailure = true
 		if m.inv != nil {
 			m.inv.panicked = append(m.inv.panicked, rec)
 		}
